@@ -91,6 +91,10 @@ def directed_rewatch(r):
     if r.random() < 0.3:
         t += r.choice([1, T // 4])
         events.append((t, (0, 1, False, peers[1].datagram([svc.create_offer_entry(r.choice([0, 1, 3]))], False))))
+    if r.random() < 0.4:
+        # the application's watch / unwatch calls are made two or three loop iterations into their instant (ApiSoon): behind
+        # everything a datagram of the same instant triggers (handle_offer and the reboot clean-up run one iteration in)
+        events = [(tt, (1, [r.choice([23, 24]), ev[1]])) if ev[0] == 1 and ev[1][0] in (3, 4, 5, 6) and tt > 0 else (tt, ev) for tt, ev in events]
     return dict(cfg=tuple(cfg), insts=[], draws=[0] * 4, events=events, end=t + r.choice([1, T // 2, 2 * T, 4 * T]), rev=r.random() < 0.3, fuel=20000)
 
 
